@@ -189,6 +189,40 @@ def run(ctx):
                 ctx.violation('measured-notes-depend-on-neighbours/key', 'host key %r audited beside %r (RSA %d bits) shows notes %r; audited alone with the same key it shows %r' % (
                     t, [x for x in c['key'] if x != t], c['size'], got.get(t), want), desc)
     nl += len(hk_cases) + len(ref_cases)
+    # measured sizes at or above the documented good size add nothing: a group-exchange modulus of exactly 3072 / 4096 bits, an RSA host key of exactly 3072 / 4096 bits -
+    # the algorithm's notes are then the database's own, i.e. what the same name shows when nothing could be measured (probes refused)
+    GEXN = ['diffie-hellman-group-exchange-sha256', 'diffie-hellman-group-exchange-sha1']
+    good_cases = [{'gex': sz, 'rsa': rs} for sz in (3072, 4096) for rs in (3072, 4096)] + [{'gex': None, 'rsa': None}]
+
+    def do_good(z, c):
+        hk = {b'rsa-sha2-512': P.rsa_blob(c['rsa']), b'ssh-rsa': P.rsa_blob(c['rsa'])} if c['rsa'] else {}
+        srv = P.new_ssh2_server(dict(banner=b'SSH-2.0-dropbear_2022.83', kex=GEXN + ['curve25519-sha256'], key=['rsa-sha2-512', 'ssh-rsa'], enc=['aes256-ctr'], mac=['hmac-sha2-512-etm@openssh.com'], hostkeys=hk,
+                                     gex=(lambda sz: (lambda a, b, cc: sz if (sz and a <= sz <= cc) else None))(c['gex'])), stall_limit=3.0)
+        try:
+            return z.run(['-j', '--skip-rate-test', '-t', '2', '127.0.0.1:%d' % srv.port], timeout=120)
+        finally:
+            srv.shutdown()
+    with runner.Pool(8) as pool:
+        good_out = pool.map(do_good, good_cases)
+    base = None
+    notes_of = []
+    for c, res in zip(good_cases, good_out):
+        try:
+            js = canon.load_json(res['out'])
+            notes_of.append({(a['cat'], a['name']): sorted(a['notes']) for a in canon.json_algs(js) if a['name'] in GEXN + ['rsa-sha2-512', 'ssh-rsa']})
+        except canon.CanonError as e:
+            ctx.violation('cli-good-sizes/no-report', 'exit %r, %s' % (res['rc'], e), {'op': 'cli-good-sizes', 'case': c})
+            notes_of.append(None)
+    base = notes_of[-1]
+    for c, d in zip(good_cases[:-1], notes_of[:-1]):
+        if d is None or base is None:
+            continue
+        for k, v in d.items():
+            nontriv.add(('good-size-over-tcp', k[1], c['gex'], c['rsa']))
+            if v != base.get(k):
+                ctx.violation('good-size-adds-notes/%s' % k[0], '%s %r measured at a documented good size (modulus %r bits, RSA key %r bits) shows notes %r; with nothing measured it shows %r' % (k[0], k[1], c['gex'], c['rsa'], v, base.get(k)),
+                              {'op': 'cli-good-sizes', 'case': c})
+    nl += len(good_cases)
     ctx.cover(len(recs) + nl, nontriv, [reportfam.jsonable_peer(recs[0]['peer'])],
               'every database name (gss-* instantiated with base64 suffixes) x placements (alone/first/last/middle among random neighbours) x roles, text vs JSON vs --lookup; plus random peers; non-trivial = distinct (category, database name) seen')
     ctx.exhaustive = not q
